@@ -9,6 +9,12 @@ NATIVE = "#sbepp::endian::little"      # host byte order of this image (asserted
 
 
 def native_order(lib):
+    if getattr(lib, "_native_order", None) is None:
+        lib._native_order = _native_order(lib)
+    return lib._native_order
+
+
+def _native_order(lib):
     for e in lib.facts.get("enums", []):
         if e["qn"] in ("sbepp::endian", "std::endian"):
             vals = {x["name"]: x["value"] for x in e["enumerators"]}
